@@ -1,19 +1,35 @@
-"""C16 — met time series semantics.  Exhaustive exact correspondence between
-bldfm.config_parser (MetConfig through parse_config_dict, and the step range the drivers
-iterate over) and Model/Met.v, plus the property's own oracle."""
+"""C16 — met time series semantics.  Two ties between bldfm.config_parser.MetConfig and Model/Met.v:
+(B) the three methods and the field list are re-translated from the current source on every run
+(harness/py2coq_met.py -> Gen/GenMet.v, deep embedding of Model/MetPy.v) and Bridge/MetBridge.v re-proves
+gen = model for ALL inputs; (A) exhaustive exact correspondence through parse_config_dict and the step
+range the drivers iterate over.  Plus the property's own oracle."""
 import itertools
 import os
 import sys
 
 import core
+import py2coq
+import py2coq_met
 
 TRUSTED = [
-    "Model/Met.v is hand-written; tied to config_parser.MetConfig by exhaustive differential execution over the property's space",
+    "Model/Met.v is hand-written; tied to config_parser.MetConfig (B) for all inputs: harness/py2coq_met.py re-translates n_timesteps, get_step, validate "
+    "(whole bodies, statement by statement; fail closed on any syntax outside the fragment, any further method/decorator/base class/field default) and the "
+    "dataclass field list from the current source, Bridge/MetBridge.v re-proves gen = model (every field pattern, list length, value, step index); "
+    "(A) by exhaustive differential execution through parse_config_dict and the drivers over the property's space",
+    "Model/MetPy.v: the meaning given to the Python fragment (CPS big-step interpreter; short-circuit and/or yielding an operand, truthiness, dict insertion "
+    "order, value semantics for the dicts/sets the code builds - the translator rejects programs in which such a container could be aliased -, set.pop() on "
+    "singletons/empty only, IndexError for an index >= len, `self.<field>` reads the constructor argument) and the translator's AST -> embedding mapping",
+    "the message expression of `raise ValueError(f\"...\")` is not evaluated by the embedding (only the exception class is compared)",
+    "what (B) does not cover and (A) does: _parse_met/parse_config_dict (dict -> MetConfig, the call of validate in BLDFMConfig.__post_init__) and the drivers' step range",
     "yaml/dataclasses machinery of CPython",
 ]
 ASSUMPTIONS = [
     "values of the forcing fields are opaque to MetConfig (it only selects and forwards them); tokens are distinct integers",
+    "as in Model/Met.v: a field is absent (None), a list, or a scalar that is neither None nor a list; mol, wind_speed, wind_dir are never None; "
+    "the step index is a non-negative int (Python's negative indexing is outside the model, whose index is a nat)",
 ]
+BRIDGE_LEMMAS = ["bridge_fields", "bridge_n_timesteps", "bridge_get_step", "bridge_validate",
+                 "bridge_validate_outcomes", "bridge_get_step_index_error", "bridge_n_timesteps_value"]
 THEOREMS = ["C16_steps", "C16_get_step", "C16_reject", "C16_accept", "C16_series_total"]
 
 
@@ -191,8 +207,36 @@ def nontrivial(c, e):
     return has_list and (e is None or len(e) >= 2)
 
 
+def run_bridge(ctx):
+    """tie (B): MetConfig's methods from the current source -> GenMet.v -> Bridge/MetBridge.v (gen = model, all inputs)"""
+    path = os.path.join(core.SRC, "bldfm", "config_parser.py")
+    try:
+        text = py2coq_met.translate(path)
+    except py2coq.TranslateError as e:
+        ctx.obligation("gen:GenMet.v", False, "MetConfig translator failed closed: %s" % e)
+        return False
+    except Exception as e:  # a crash of the translator is a failure to translate, never a pass
+        ctx.obligation("gen:GenMet.v", False, "MetConfig translator crashed (treated as failed closed): %r" % e)
+        return False
+    ctx.cov["methods_translated"] = ["MetConfig.n_timesteps", "MetConfig.get_step", "MetConfig.validate", "MetConfig field list"]
+    ok = core.run_bridge(ctx, {"GenMet.v": text}, ["MetBridge.v"])
+    if ok:
+        # the bridge lemmas just compiled depend on no axiom at all
+        lines = ["From Gen Require Import MetBridge."]
+        for n in BRIDGE_LEMMAS:
+            lines.append('Goal True. idtac "THEOREM %s". Abort. Print Assumptions %s.' % (n, n))
+        rc, out, err, _ = ctx.coqc(ctx.write("MetBridgeAx.v", "\n".join(lines) + "\n"), timeout=120)
+        got = core.parse_assumptions(out) if rc == 0 else {}
+        open_ = [n for n in BRIDGE_LEMMAS if got.get(n) != set()]
+        ctx.obligation("bridge:MetBridge:closed-under-global-context", rc == 0 and not open_,
+                       "" if rc == 0 and not open_ else "not closed / not found: %s %s" % (open_, (out + err)[-600:]))
+        ok = ok and rc == 0 and not open_
+    return ok
+
+
 def check(ctx):
     core.check_properties_file(ctx, "Properties/C16.v", THEOREMS, core.AX_NONE)
+    run_bridge(ctx)
     cp = _impl()
     cases = list(space(ctx))
     exp = []
